@@ -30,6 +30,7 @@ func (m *Mutex) Lock() {
 		vsched.Block(m)
 	}
 	m.locked = true
+	vsched.Held(1)
 	vsched.Acquire(&m.obj)
 }
 
@@ -42,20 +43,24 @@ func (m *Mutex) TryLock() bool {
 		return false
 	}
 	m.locked = true
+	vsched.Held(1)
 	vsched.Acquire(&m.obj)
 	return true
 }
 
+// Unlock is not a scheduling point of its own: being preempted just before a release is
+// equivalent to being preempted at the thread's next point after it (nobody waiting for this
+// mutex can run in between).
 func (m *Mutex) Unlock() {
 	if !vsched.Exploring() {
 		m.mu.Unlock()
 		return
 	}
-	vsched.SyncPoint()
 	if !m.locked {
 		panic("sync: unlock of unlocked mutex")
 	}
 	m.locked = false
+	vsched.Held(-1)
 	vsched.Release(&m.obj)
 	vsched.Unblock(m)
 }
@@ -77,6 +82,7 @@ func (m *RWMutex) Lock() {
 		vsched.Block(m)
 	}
 	m.writer = true
+	vsched.Held(1)
 	vsched.Acquire(&m.obj)
 }
 
@@ -89,6 +95,7 @@ func (m *RWMutex) TryLock() bool {
 		return false
 	}
 	m.writer = true
+	vsched.Held(1)
 	vsched.Acquire(&m.obj)
 	return true
 }
@@ -98,11 +105,11 @@ func (m *RWMutex) Unlock() {
 		m.mu.Unlock()
 		return
 	}
-	vsched.SyncPoint()
 	if !m.writer {
 		panic("sync: Unlock of unlocked RWMutex")
 	}
 	m.writer = false
+	vsched.Held(-1)
 	vsched.Release(&m.obj)
 	vsched.Unblock(m)
 }
@@ -117,6 +124,7 @@ func (m *RWMutex) RLock() {
 		vsched.Block(m)
 	}
 	m.readers++
+	vsched.Held(1)
 	vsched.Acquire(&m.obj)
 }
 
@@ -129,6 +137,7 @@ func (m *RWMutex) TryRLock() bool {
 		return false
 	}
 	m.readers++
+	vsched.Held(1)
 	vsched.Acquire(&m.obj)
 	return true
 }
@@ -138,11 +147,11 @@ func (m *RWMutex) RUnlock() {
 		m.mu.RUnlock()
 		return
 	}
-	vsched.SyncPoint()
 	if m.readers <= 0 {
 		panic("sync: RUnlock of unlocked RWMutex")
 	}
 	m.readers--
+	vsched.Held(-1)
 	// a reader's release is only observed by a later writer; readers do not order each other,
 	// but publishing the clock on the shared object is a sound over-approximation of ordering
 	// only for writer acquisition, so keep a separate join: writers acquire obj, readers release into it.
